@@ -25,7 +25,7 @@ use crate::world::{KeyMat, RepoCfg, repo_init, repo_on, repo_open, snap_template
 
 pub struct C03;
 
-pub const KINDS: [&str; 20] = [
+pub const KINDS: [&str; 21] = [
     "backup-first",
     "backup-next",
     "forget",
@@ -46,6 +46,7 @@ pub const KINDS: [&str; 20] = [
     "forget-many",
     "rewrite-meta",
     "key-change",
+    "prune-mark-early-delete-index",
 ];
 
 pub const OLD_PW: &str = "old password";
@@ -112,13 +113,17 @@ fn run_kind(sim: &mut Sim, kind: &str, mode: &Mode, ctx: &Ctx) -> Cmd<KOut> {
             let r = sim.forget(mode, 1, &ids);
             map_unit(r, KOut { new_known: vec![], may_vanish: ids })
         }
-        "prune-mark" | "prune-instant" | "prune-delete-marked" | "prune-repack-all" | "prune-after-crash" | "prune-instant-after-crash" => {
+        "prune-mark" | "prune-instant" | "prune-delete-marked" | "prune-repack-all" | "prune-after-crash" | "prune-instant-after-crash" | "prune-mark-early-delete-index" => {
             let mut o = PruneOptions::default().max_unused(LimitOption::Percentage(0)).max_repack(LimitOption::Unlimited).keep_delete(jiff::Span::new().hours(1));
             if kind == "prune-instant" || kind == "prune-instant-after-crash" {
                 o = o.instant_delete(true);
             }
             if kind == "prune-repack-all" {
                 o = o.repack_all(true);
+            }
+            if kind == "prune-mark-early-delete-index" {
+                // only the combination with instant-delete is documented as unsafe; without it the option has to be harmless
+                o = o.early_delete_index(true);
             }
             if kind == "prune-delete-marked" {
                 o = o.keep_delete(jiff::Span::new());
@@ -269,7 +274,7 @@ impl Prop for C03 {
         }
     }
     fn rule(&self) -> &'static str {
-        "one run = one command kind (backup first/next, forget of one/several snapshots, prune mark/instant/delete-marked/repack-all, repair index (+read-all), repair snapshots, rewrite of trees / of metadata + forget, merge, config+key add, \
+        "one run = one command kind (backup first/next, forget of one/several snapshots, prune mark/instant/delete-marked/repack-all/mark with early-delete-index but without instant-delete, repair index (+read-all), repair snapshots, rewrite of trees / of metadata + forget, merge, config+key add, \
          password change (add key, delete old key: some password must open the repository at every prefix), copy into; prune / instant prune / backup started on the state an interrupted earlier run of the same command left behind) on a \
          generated pre-state, executed once under a seeded gate schedule to record its write/remove log L; then EVERY prefix S0+L[..k] is opened with a fresh handle (index load, every listed snapshot read \
          completely, old snapshots compared with their model), and for up to 12 (quick) / 24 (thorough) positions j the command is re-executed from S0 under the same schedule with op j failing \
